@@ -533,7 +533,7 @@ def _block(iterator: Iterable[str], indent: str) -> str:
 # is a single-line, adding a leading blank line would strip that whitespace.
 def _block_string(value: str, indent: str, is_description: bool = False) -> str:
     escaped = value.replace('"""', '\\"""')
-    if (value[0] == " " or value[0] == "\t") and "\n" not in value:
+    if value[:1] in (" ", "\t") and "\n" not in value:
         if escaped.endswith('"'):
             escaped = escaped + "\n"
         return '"""%s"""' % escaped
